@@ -169,3 +169,20 @@ Proof.
   exists (map (fun _ => []) [(1, 7); (7, 10)]). split; [vm_compute; reflexivity|].
   cbn [sync hd_arcs]. split; [exact HRA|]. rewrite Hlay. split; assumption.
 Qed.
+
+(** ** the creation options (-agg-method, -x-files-factor, -retentions) describe a destination that has to be
+    created; when the destination exists -- and the options are ones a file could be created with --
+    what is copied does not depend on them: not the window, not the archives, not the outcome
+    (compared with the code by the [c08-*-shortopt] cases: -retentions shorter than the files) *)
+Theorem C08_existing_destination_ignores_creation_options F src dh o o' until now :
+  co_from o' = co_from o -> co_archive o' = co_archive o -> co_copy_nan o' = co_copy_nan o ->
+  create (co_method o) (co_xff o) (co_layout o) <> None ->
+  create (co_method o') (co_xff o') (co_layout o') <> None ->
+  copy_core F src (Some dh) o' until now = copy_core F src (Some dh) o until now.
+Proof.
+  intros Hf Ha Hn Hc Hc'. unfold copy_core.
+  destruct (create (co_method o) (co_xff o) (co_layout o)); [|contradiction].
+  destruct (create (co_method o') (co_xff o') (co_layout o')); [|contradiction].
+  rewrite Hf, Ha, Hn. reflexivity.
+Qed.
+Print Assumptions C08_existing_destination_ignores_creation_options.
